@@ -146,6 +146,22 @@ func verifC17Cap() {
 	verifAssert(r.Hostname == "zq.com" && r.Domain == "zq.com", "c17: host of a capped URL")
 }
 
+// verifC17SourceCap: with an over-long source URL the source fields still come from the
+// source (short and long request URLs) and nothing crashes.
+func verifC17SourceCap(longURL int) {
+	pad := strings.Repeat("a", maxURLLength-len("http://qz.org/")-4)
+	tailS := verifString("tail", 8, "aA/#")
+	src := "http://qz.org/" + pad + tailS
+	u := "http://zq.com/x"
+	if longURL == 1 {
+		u = "http://zq.com/" + pad + tailS
+	}
+	r := NewRequest(u, src, TypeImage)
+	verifReach("c17.sourcecap")
+	verifAssert(r.SourceHostname == "qz.org" && r.SourceDomain == "qz.org", "c17: source host of a capped source URL")
+	verifAssert(r.Hostname == "zq.com" && r.Domain == "zq.com" && r.ThirdParty, "c17: third-party iff there is a source with a different registrable domain")
+}
+
 func verifC17Vacuity() {
 	h := verifHost("h", 3, 1, "zq.")
 	_ = effectiveTLDPlusOne(h)
